@@ -153,20 +153,9 @@ func (z *ZodLazy[T]) ParseAny(input any, ctx ...*core.ParseContext) (any, error)
 
 // StrictParse requires exact type matching for compile-time safety.
 func (z *ZodLazy[T]) StrictParse(input T, ctx ...*core.ParseContext) (T, error) {
-	result, err := engine.ParseComplexStrict[any](
-		any(input),
-		&z.internals.ZodTypeInternals,
-		core.ZodTypeLazy,
-		z.extractType,
-		z.extractPtr,
-		z.validateLazy,
-		ctx...,
-	)
-	if err != nil {
-		var zero T
-		return zero, err
-	}
-	return z.convertResult(result), nil
+	// StrictParse must answer exactly what Parse answers: the statically typed input is a valid
+	// Parse input, so run the one pipeline.
+	return z.Parse(input, ctx...)
 }
 
 // MustStrictParse validates with strict type matching and panics on error.
